@@ -1410,6 +1410,50 @@ fn run(cfg: &Config, s: &mut Session) {
     }
 
     run_v0(&mut rng, if thorough { 3000 } else { 400 }, s, cap);
+    run_blowup(&mut rng, s, thorough);
+}
+
+/// DESIGN §6-7 / theorem `glyph_chain_visits`: a tree-shaped chain of d nested PaintGlyph tables
+/// costs 3·2^(d-1)−1 node visits.  Small depths are timed (the doubling is reported in the notes);
+/// one depth far beyond any practical budget is run against the wall-clock cap.
+fn run_blowup(rng: &mut Rng, s: &mut Session, thorough: bool) {
+    let solid = wc::Paint::solid(0, F2Dot14::from_f32(1.0));
+    let mut timings = vec![];
+    for d in [14usize, 16, 18, 20] {
+        let kinds: Vec<u8> = vec![b'G'; d];
+        let Some(colr) = build_chain(&kinds, solid.clone(), rng) else { continue };
+        let font = Arc::new(hex(&font_of(&colr)));
+        let t = std::time::Instant::now();
+        let r = run_jobs(&[Job { font_hex: font, gid: 1, fg: 1, cm: 0, v0: false }], Duration::from_secs(60), 1);
+        // the child paints twice (determinism check)
+        timings.push(format!("d={d}: {:.0} ms", t.elapsed().as_secs_f64() * 1000.0 / 2.0));
+        let input = || format!("family=glyphchain depth={d} bytes={} colr={}", colr.len(), hex(&colr));
+        judge_common(s, &r[0], &input);
+        // the model agrees on the (tiny) callback stream
+        if let Ok(fr) = FontRef::new(&font_of(&colr)) {
+            if let Ok(c) = fr.colr() {
+                let inst = extract(&c, &[1]);
+                s.case("paint:glyphchain", format!("paint 1 0 1 {}", inst.request_tail()), r[0].clone());
+                s.case("visits:glyphchain", format!("visits 1 0 1 {}", inst.request_tail()), (3u64 * (1u64 << (d - 1)) - 1).to_string());
+            }
+        }
+    }
+    s.notes.push(format!("nested PaintGlyph chain, wall time per paint (doubles per level): {}", timings.join(", ")));
+    let d = 40usize;
+    let cap = Duration::from_secs(if thorough { 20 } else { 6 });
+    let kinds: Vec<u8> = vec![b'G'; d];
+    if let Some(colr) = build_chain(&kinds, solid, rng) {
+        let font = Arc::new(hex(&font_of(&colr)));
+        let r = run_jobs(&[Job { font_hex: font, gid: 1, fg: 1, cm: 0, v0: false }], cap, 1);
+        let head = r[0].split(' ').next().unwrap_or("").to_string();
+        s.count(&format!("glyphchain-depth-40:result:{head}"));
+        s.oracle(
+            "paint-of-a-tree-shaped-table-terminates-within-the-time-cap",
+            head != "timeout",
+            || format!("family=glyphchain depth={d} nodes={} bytes={} cap={}s colr={}", d + 1, colr.len(), cap.as_secs(), hex(&colr)),
+            || format!("{} (3*2^39-1 = 1649267441663 paint-node visits for a {}-byte table)", r[0], colr.len()),
+        );
+    }
 }
 
 fn main() {
